@@ -37,6 +37,18 @@ func vxTerminal(t *vxTx, e Event) bool {
 	return errors.As(e.Error, &se)
 }
 
+// vxCloseWithLastTick: Close, optionally with the collector's last tick firing inside collector.Close()
+// (the real ticker collector lets a pending tick finish there).
+func vxCloseWithLastTick(env *vxClientEnv) {
+	if vxChoose(2) == 1 {
+		nt := vxTime()
+		vxAssume(!nt.Before(env.clock.now))
+		env.coll.onClose = func() { env.tick(nt) }
+		vxReach("tick-inside-close")
+	}
+	_ = env.c.Close()
+}
+
 func vh_C10_history() {
 	env := vxNewClient()
 	env.c.maxAttempts = int32(vxChoose(2)) // 0 or 1 retransmission: timeouts are reachable within the depth
@@ -86,7 +98,7 @@ func vh_C10_history() {
 		default:
 			if !closed {
 				closed = true
-				_ = env.c.Close()
+				vxCloseWithLastTick(env)
 				vxReach("close-mid-history")
 			}
 		}
@@ -96,7 +108,7 @@ func vh_C10_history() {
 		vxAssert(len(dup.events) == 0, "the handler of a failed Start is never invoked")
 	}
 	if !closed {
-		_ = env.c.Close()
+		vxCloseWithLastTick(env)
 	}
 	for j := range txs {
 		t := &txs[j]
